@@ -171,6 +171,28 @@ HAND_CASES = [
 ]
 
 
+# the annotated line is NOT the line a node's `lineno` points at: a decorator line, a continuation line or the last line of a definition
+# that a deleting / merging / moving rule would otherwise take away (direct-editing rules and scheduled rules alike)
+_DUP = "import functools\n\n\n@functools.lru_cache(maxsize=None)\ndef first(x):\n    return x * 2 + 1\n\n\n{dec}\ndef second(x):{c1}\n    return x * 2 + 1{c2}\n\n\nprint(first(1), second(2))\n"
+_IGN = "  # pyrefact: ignore"
+for _src, _line in [
+    (_DUP.format(dec="@functools.lru_cache(maxsize=None)" + _IGN, c1="", c2=""), "@functools.lru_cache(maxsize=None)" + _IGN),
+    (_DUP.format(dec="@functools.lru_cache(\n    maxsize=None," + _IGN + "\n)", c1="", c2=""), "    maxsize=None," + _IGN),
+    (_DUP.format(dec="@functools.lru_cache(maxsize=None)", c1=_IGN, c2=""), "def second(x):" + _IGN),
+    (_DUP.format(dec="@functools.lru_cache(maxsize=None)", c1="", c2=_IGN), "    return x * 2 + 1" + _IGN),
+    ("import functools\n\n\n@functools.wraps(print)" + _IGN + "\ndef unused_helper(x):\n    return x\n\n\nprint(1)\n", "@functools.wraps(print)" + _IGN),
+    ("import dataclasses\n\n\n@dataclasses.dataclass" + _IGN + "\nclass UnusedRecord:\n    x: int = 0\n\n\nprint(1)\n", "@dataclasses.dataclass" + _IGN),
+    ("class K:\n    @staticmethod" + _IGN + "\n    def helper(x):\n        return x + 1\n\n    def run(self):\n        return K.helper(1)\n\n\nprint(K().run())\n", "    @staticmethod" + _IGN),
+    ("class K:\n    @property" + _IGN + "\n    def value(self):\n        return 1\n\n\nprint(K().value)\n", "    @property" + _IGN),
+    ("def f(x):\n    return x\n    print(\n        x," + _IGN + "\n    )\n\n\nprint(f(1))\n", "        x," + _IGN),
+    ("def f(x):\n    (x +\n     1)" + _IGN + "\n    return x\n\n\nprint(f(1))\n", "     1)" + _IGN),
+    ("from os import (\n    path," + _IGN + "\n    sep,\n)\n\nprint(sep)\n", "    path," + _IGN),
+    ("import os\n\n\ndef f():\n    import json, \\\n        sys" + _IGN + "\n    return json, sys, os\n\n\nprint(f())\n", "        sys" + _IGN),
+    ("x = [\n    1," + _IGN + "\n    2,\n]\nx = 3\nprint(x)\n", "    1," + _IGN),
+]:
+    HAND_CASES.append((_src, _line, _src.split("\n").index(_line) + 1))
+
+
 def run(tier, seed):
     rnd = random.Random(seed)
     srcs = corpus()
